@@ -2,6 +2,7 @@
   C08 — specifications for the histories (property shaped).
 -/
 import ALV.Spec.C08
+import ALV.Model.C08Hist
 namespace ALV.C08
 variable {α : Type}
 
@@ -35,5 +36,19 @@ termination_by _ v => v.length
 decreasing_by
   simp only [List.length_drop, List.length_append, (edit k).2, List.length_take]
   omega
+
+theorem Edit.apply_length (e : Edit α) (l : List α) : (e.apply l).length = l.length := by
+  cases e with
+  | set i v => simp [Edit.apply]
+  | rotate r => simp only [Edit.apply, List.length_append, List.length_drop, List.length_take]; omega
+  | reverse => simp [Edit.apply]
+
+theorem applyEdits_length (es : List (Edit α)) : ∀ l : List α, (applyEdits es l).length = l.length := by
+  induction es with
+  | nil => intro l; rfl
+  | cons e es ih => intro l; simp only [applyEdits, List.foldl_cons] at ih ⊢; rw [ih, e.apply_length]
+
+/-- the concrete edits of the harness (item assignment, rotate, reverse) keep the length -/
+def editsLP (es : List (Edit α)) : LenPres α := ⟨applyEdits es, applyEdits_length es⟩
 
 end ALV.C08
